@@ -12,6 +12,14 @@
 //	limitrace <k> -> <max> <stored afterwards> <creates accepted> <creates refused>
 //	mergerace <k> <n> -> <id:upd,state of the raced id as stored afterwards> <stored0 upd> <batch upd> <expire upd>
 //
+//	twomutes <k> -> <first 0|1> <second 0|1> <after both 0|1> <after the older silence was expired 0|1> <active> <alert>
+//
+// twomutes: TWO overlapping Mutes calls for the same alert.  The first is parked (through the silencer's logger) at the
+// debug line between its store query and its cache write — no lock is held there; meanwhile a second matching silence is
+// created and a second call runs to completion; then the first resumes and writes what it computed.  Whatever the
+// two leave in the cache, every later call must still be exact (mutesI_next_call_exact): after the older silence has
+// been expired the alert is muted by the newer one.
+//
 //	snaprace <k> <n> -> <seam|timed> <pre> <post> <loaded>     each: <raced silence>,<its replacement>,<active>,<stored>
 //
 // snaprace: the store holds n active silences; Snapshot races an incompatible edit of one of them (Set with the id and
@@ -299,9 +307,89 @@ func (w *world) snapRaceOnce(st *silence.Silences, victim string, tag int, seam 
 	return pre, post, snapDigest(st2, victim, repl.Id, ts)
 }
 
+// parkHandler parks the goroutine that emits the silencer's "determined current silences state" debug line while armed.
+type parkHandler struct {
+	armed   atomic.Bool
+	parked  chan struct{}
+	release chan struct{}
+}
+
+func (h *parkHandler) Enabled(context.Context, slog.Level) bool { return true }
+func (h *parkHandler) Handle(_ context.Context, r slog.Record) error {
+	if strings.Contains(r.Message, "determined current silences state") && h.armed.CompareAndSwap(true, false) {
+		close(h.parked)
+		<-h.release
+	}
+	return nil
+}
+func (h *parkHandler) WithAttrs([]slog.Attr) slog.Handler { return h }
+func (h *parkHandler) WithGroup(string) slog.Handler      { return h }
+
+func (w *world) twoMutes(k int) string {
+	ctx := context.Background()
+	st, err := silence.New(silence.Options{Retention: time.Hour, Metrics: prometheus.NewRegistry()})
+	if err != nil {
+		panic(err)
+	}
+	h := &parkHandler{parked: make(chan struct{}), release: make(chan struct{})}
+	sl := silence.NewSilencer(st, slog.New(h), eventrecorder.NopRecorder())
+	now := time.Now()
+	job := string(w.alert["job"])
+	s1 := w.mkSil(now, now.Add(time.Hour), job)
+	if err := st.Set(ctx, s1); err != nil {
+		panic(err)
+	}
+	// k%3 = 1, 2: other silences stored before / between, so that the raced silence is not the only or last one indexed
+	if k%3 == 1 {
+		if err := st.Set(ctx, w.mkSil(now, now.Add(time.Hour), "other")); err != nil {
+			panic(err)
+		}
+	}
+	if k%2 == 1 {
+		sl.Mutes(ctx, w.alert) // a cache entry exists already: the raced calls are incremental
+	}
+	var first bool
+	done := make(chan struct{})
+	h.armed.Store(true)
+	go func() {
+		defer close(done)
+		first = sl.Mutes(ctx, w.alert)
+	}()
+	select {
+	case <-h.parked:
+	case <-done: // the line was not reached (no debug line on this path): nothing is interleaved
+	case <-time.After(5 * time.Second):
+		panic("twomutes: first call neither parked nor returned")
+	}
+	s2 := w.mkSil(now, now.Add(time.Hour), job)
+	s2.Comment = "second"
+	if err := st.Set(ctx, s2); err != nil {
+		panic(err)
+	}
+	if k%3 == 2 {
+		if err := st.Set(ctx, w.mkSil(now, now.Add(time.Hour), "other")); err != nil {
+			panic(err)
+		}
+	}
+	second := sl.Mutes(ctx, w.alert)
+	close(h.release)
+	<-done
+	both := sl.Mutes(ctx, w.alert)
+	if err := st.Expire(ctx, s1.Id); err != nil {
+		panic(err)
+	}
+	time.Sleep(2 * time.Millisecond) // the expiry takes effect at its own instant
+	after := sl.Mutes(ctx, w.alert)
+	ws := &world{s: st, alias: map[string]string{}}
+	return fmt.Sprintf("%d %d %d %d %s job=%s", b2i(first), b2i(second), b2i(both), b2i(after), ws.active(), job)
+}
+
 func (w *world) exec(line string) string {
 	t := strings.Fields(line)
 	switch t[0] {
+	case "twomutes":
+		k, _ := strconv.Atoi(t[1])
+		return w.twoMutes(k)
 	case "race":
 		k, _ := strconv.Atoi(t[1])
 		// make the alert's cache entry stale first (a Set + Expire of an unrelated silence), so that the
@@ -487,6 +575,9 @@ func runCase(tr *hx.Trace, id int, r *rand.Rand, script []string) {
 	for k := 0; k < rounds; k++ {
 		do(fmt.Sprintf("race %d", k))
 		do(fmt.Sprintf("quiet %d", k))
+	}
+	for k := 0; k < 6; k++ {
+		do(fmt.Sprintf("twomutes %d", k+id))
 	}
 	do(fmt.Sprintf("limitrace %d", id))
 	for k := 0; k < 3; k++ {
